@@ -65,7 +65,7 @@ func vhC12(c vhC12Case, window bool) {
 	w := vhNewWorld(vhWorldOpts{onlyA: true, noEvents: true})
 	bm := w.L.BindingManager().(*BindingManager)
 	cliA := w.rA.FeatureByAddress(vhAddr("A", []uint{1}, 1))
-	bm.bindingNum = 1
+	vhSetBindingNum(bm, 1)
 	bm.bindingEntries = []*api.BindingEntry{{Id: 1, ServerFeature: w.F1, ClientFeature: cliA}}
 	w.F1.SetData(model.FunctionTypeLoadControlLimitListData, vhTwoLimits())
 	w.F1.SetWriteApprovalTimeout(time.Second)
